@@ -390,6 +390,7 @@ class Explorer:
             return self.memo[key]
         if self.gcur != self.g0d:
             self.G.restore(self.g0)
+        raw = getattr(self, "raw", None)
         try:
             obj = H.build(spec, res)
             if fitted:
@@ -397,12 +398,13 @@ class Explorer:
             out = ("ok", self.call(obj, method, arg, fresh=True))
         except Exception as e:
             out = ("exc", type(e).__name__)
+        self.raw = raw  # the reference object's output is not the caller's held result
         self.gcur = self.G.digest()
         self.memo[key] = out
         return out
 
     def ests(self, world):
-        return [(n, o) for n, o in world.items() if n != "__M__"]
+        return [(n, o) for n, o in world.items() if not n.startswith("__")]
 
     def data_for(self, world, model, d):
         """(object handed to the real call, key of its current contents in DATA)"""
@@ -414,9 +416,11 @@ class Explorer:
         if method in ("predict", "transform", "transform_scores"):
             if X is None:
                 X = DATA[arg].copy() if fresh else DATA[arg]
-            return H.canon_value(getattr(obj, method)(X))
+            self.raw = getattr(obj, method)(X)
+            return H.canon_value(self.raw)
         if method == "evaluate":
-            return H.canon_value(obj.evaluate(CUTS[obj.expected_cut_entries].copy()))
+            self.raw = obj.evaluate(CUTS[obj.expected_cut_entries].copy())
+            return H.canon_value(self.raw)
         if method == "fitted_params":
             return H.canon_value({k: v for k, v in vars(obj).items() if k.endswith("_") and not k.startswith("_")
                                   and isinstance(v, (float, int, np.floating, np.integer))})
@@ -432,6 +436,9 @@ class Explorer:
         kind, name = ev[0], ev[1]
         obj = world[name]
         m = model[name]
+        # the object RETURNED by the previous output-producing call, held by the caller: it must not change afterwards
+        held = world.pop("__HELD__", None)
+        self.raw = None
         case = {"world": self.wname, "history": [ev_json(e) for e in path + [ev]]}
         key = {"world": self.wname, "event": kind}
         names = {id(o): n for n, o in self.ests(world)}
@@ -459,7 +466,11 @@ class Explorer:
             self.touch_shared(model, m, dkey)
             self.outputs.add(hashlib.md5(repr(got).encode()).hexdigest())
         elif kind == "fitpredict":
-            got = real(lambda: H.canon_value(obj.fit_predict(X)))
+            def fp():
+                self.raw = obj.fit_predict(X)
+                return H.canon_value(self.raw)
+
+            got = real(fp)
             want = self.pristine(model, name, True, dkey, "predict", dkey)
             self.compare(case, key, got, want, f"{name}.fit_predict({dkey})")
             if got[0] == "ok":
@@ -568,6 +579,16 @@ class Explorer:
         for n, o in self.ests(world):
             if params_canon(o, names) != model[n].spec.canon(res):
                 acc.violation("params-vs-model", case, f"{n}.get_params() = {params_canon(o, names)} but the history implies {model[n].spec.canon(res)}", key)
+        # (4) a result the caller still holds does not change through later calls
+        if held is not None:
+            now = real(lambda: H.canon_value(held[0]))
+            if now != ("ok", held[1]):
+                acc.violation("held-result-changed", case, f"the object returned by {held[2]} changed while the caller held it: "
+                              f"{self.short(held[1])} -> {self.short(now)} after {kind} on {name}", key)
+            acc.count("held_results_rechecked")
+        if self.raw is not None and got[0] == "ok":
+            world["__HELD__"] = (self.raw, got[1], f"{name}.{kind}")
+        self.raw = None
         return cont
 
     def same(self, a, b):
@@ -667,6 +688,8 @@ class Explorer:
     def state_key(self, world, model):
         c = H.ObjCanon()
         for n in sorted(world):
+            if n == "__HELD__":  # observational only: not part of the state
+                continue
             c.feed("name", n)
             c.walk(world[n])  # includes the caller's mutable buffer "__M__" (a DataFrame) where present
         return (c.digest(), model_canon(model), self.gcur)
